@@ -116,6 +116,11 @@ def run_case(spec):
         runs = [run_simulate(m)]
     elif kind == "history":
         return run_history(spec)
+    elif kind == "subproject":
+        return run_subproject(spec)
+    elif kind == "report":
+        from . import funs
+        return {"cfg": {"id": spec["id"]}, "runs": [funs.run_report(spec)], "spec": spec}
     elif kind == "sort":
         from . import funs
         c2 = dict(cfg)
@@ -293,3 +298,84 @@ def run_history(spec):
         import shutil
         shutil.rmtree(tmp, ignore_errors=True)
     return {"cfg": cfg, "runs": runs, "spec": spec}
+
+
+# =========================================================================================
+# sub-project tasks (C20)
+# =========================================================================================
+def run_subproject(spec):
+    """spec: {"kind": "subproject", "cfg": parent cfg (task `sub` is the sub-project task; its work
+    and rate are filled in from what the library configures), "child": child cfg, "childOpts",
+    "su", "pu" (unit seconds), "flag" (remove absence steps), "sub": index}."""
+    import datetime
+    import shutil
+
+    from pDESy.model.base_subproject_task import BaseSubProjectTask
+
+    tmp = _tempfile.mkdtemp(prefix="pdesy-sub-")
+    try:
+        child = spec["child"]
+        cm = Model(child, plain=True)
+        cm.project.unit_timedelta = datetime.timedelta(seconds=spec["su"])
+        runs = []
+        co = dict(child["opts"])
+        co.update(spec.get("childOpts") or {})
+        if spec.get("childSimulated", True):
+            kw = dict(task_priority_rule=TRULE[co["rule"]], absence_time_list=list(co["absL"]),
+                      perform_auto_task_while_absence_time=co["autoAbs"], max_time=co["maxTime"])
+            call_recorded(cm, lambda: cm.project.simulate(**kw), light=True)
+        path = _os.path.join(tmp, "child.json")
+        cm.project.write_simple_json(path)
+        csnap = snapshot(cm)
+        i = spec["sub"]
+        parent_cfg = _json.loads(_json.dumps(spec["cfg"]))
+        pm = Model(parent_cfg)
+        st = pm.tasks[i - 1]
+        assert isinstance(st, BaseSubProjectTask)
+        before = (st.default_work_amount, st.unit_timedelta, st.work_amount_progress_of_unit_step_time,
+                  st.remaining_work_amount, st.file_path)
+        warned = False
+        ret = "ok"
+        with warnings.catch_warnings(record=True) as wlist:
+            warnings.simplefilter("always")
+            try:
+                st.set_all_attributes_from_json(file_path=path, remove_absence_time_list=bool(spec["flag"]))
+            except Exception as e:
+                ret = "exc:" + type(e).__name__
+            warned = len(wlist) > 0
+        after = (st.default_work_amount, st.unit_timedelta, st.work_amount_progress_of_unit_step_time,
+                 st.remaining_work_amount, st.file_path)
+        configured = after != before
+        pu = datetime.timedelta(seconds=spec["pu"])
+        try:
+            usec = int(st.unit_timedelta.total_seconds())
+        except Exception:
+            usec = -1
+        D = st.default_work_amount
+        rec1 = {"op": "subconfig", "opts": parent_cfg["opts"], "args": {"cmp": 0, "flag": bool(spec["flag"])},
+                "ev": [], "ret": ret,
+                "obs": {"warned": warned, "unchanged": not configured,
+                        "D": int(D) if float(D).is_integer() else -1, "unitS": usec,
+                        "childTime": csnap["lg"]["time"], "childStatus": csnap["lg"]["status"],
+                        "childAbs": csnap["lg"]["absL"], "su": spec["su"], "pu": spec["pu"]},
+                "final": csnap}
+        runs.append(rec1)
+        if configured and ret == "ok":
+            pm.project.unit_timedelta = pu
+            st.set_work_amount_progress_of_unit_step_time(pm.project.unit_timedelta)
+            # the parent cfg the specification sees: work and rate as the library configured them
+            Q = parent_cfg["Q"]
+            rate = st.work_amount_progress_of_unit_step_time * Q
+            work = st.default_work_amount * Q
+            parent_cfg["tasks"][i - 1]["work"] = int(round(work))
+            parent_cfg["tasks"][i - 1]["rate"] = int(round(rate))
+            exact = abs(rate - round(rate)) < 1e-7 and abs(work - round(work)) < 1e-7
+            pm.cfg = parent_cfg
+            r = run_simulate(pm)
+            r["args"]["sub"] = i
+            r["args"]["expectSteps"] = -(-rec1["obs"]["D"] * spec["su"] // spec["pu"])
+            r["obs"] = {"exactRate": exact}
+            runs.append(r)
+        return {"cfg": parent_cfg, "runs": runs, "spec": spec}
+    finally:
+        shutil.rmtree(tmp, ignore_errors=True)
